@@ -29,6 +29,7 @@ VERIF = Path(__file__).resolve().parent.parent
 LEAN = VERIF / 'lean'
 WORK = VERIF / '.work'
 REPO = Path(os.environ.get('LOKI_REPO', '/repo'))
+OUT = Path(os.environ.get('VERIF_OUT', str(VERIF)))   # evidence/ and replays/ go here (redirect when testing mutants)
 ALLOWED_AXIOMS = {'propext', 'Classical.choice', 'Quot.sound'}
 FORBIDDEN = re.compile(
     r'\bsorry\b|\badmit\b|^\s*axiom\s|native_decide|bv_decide|implemented_by|\bunsafe\s|maxHeartbeats\s+0\b|\bpartial\s+def\b',
@@ -194,7 +195,7 @@ def run_driver(prop, lines):
 
 
 def load_known():
-    f = VERIF / 'known_findings.json'
+    f = Path(os.environ.get('VERIF_KNOWN', str(VERIF / 'known_findings.json')))
     if not f.exists():
         return []
     return json.loads(f.read_text())['findings']
@@ -213,13 +214,13 @@ def corpus_lines(prop):
 
 
 def save_replay(prop, kind, payload):
-    d = VERIF / 'replays'
+    d = OUT / 'replays'
     d.mkdir(exist_ok=True)
     h = hashlib.sha1(json.dumps(payload, sort_keys=True).encode()).hexdigest()[:10]
     f = d / f'{prop.id}-{kind}-{h}.json'
     payload = dict(payload, property=prop.id, kind=kind)
     f.write_text(json.dumps(payload, indent=1))
-    return f.relative_to(VERIF)
+    return f.relative_to(OUT)
 
 
 # ------------------------------------------------------------------ shrinking
@@ -455,7 +456,7 @@ def write_evidence(prop, tier, seed, t0, cov, thms=None, obligations=None, disch
         cov['explanation'] = note
     ev = dict(property_id=prop.id, tier=tier if tier in ('quick', 'thorough') else 'quick', seed=seed, level=prop.level,
               coverage=cov, assumptions=list(prop.assumptions), wall_s=round(time.time() - t0, 2), violations=violations)
-    d = VERIF / 'evidence'
+    d = OUT / 'evidence'
     d.mkdir(exist_ok=True)
     (d / f'{prop.id}.json').write_text(json.dumps(ev, indent=1, default=str))
 
